@@ -205,6 +205,20 @@ impl<'text, Sc> Context<'text, Sc> where Sc: Scanner {
         }
     }
 
+    /// Returns a `Context` with the same `ErrorTransform`s and no
+    /// `ErrorSink`. The `ErrorSink` of the given `Context` (which is shared
+    /// with its clones) is left in place.
+    #[must_use]
+    pub fn without_error_sink(&self) -> Self {
+        Context {
+            shared: Rc::new(RwLock::new(SharedContext {
+                error_sink: None,
+            })),
+            local: Rc::clone(&self.local),
+            locked: self.locked,
+        }
+    }
+
     /// Removes the `ErrorSink` from the `Context` if present.
     pub fn take_error_sink(&mut self) -> Option<ErrorSink<'text>> {
         let mut shared = self.shared.write().expect("lock shared context");
